@@ -206,6 +206,13 @@ def structural_reset(repo):
     return out
 
 
+def _standin(repo, seed, tier):
+    from pyvc.standin import run_standin
+    return run_standin('C16', tier, seed, repo)
+
+
+_standin.tiers = ('quick', 'thorough')
+BOUNDED = [_standin]
 STRUCTURAL = [structural_analysis_restore, structural_reset]
 NOT_DECIDED = ['that the input order of completion names is hash-independent (value sets are frozensets of '
                'identity-hashed objects)', 'memo entries holding recursion defaults (order dependence through the cache)',
